@@ -10,7 +10,6 @@ package p9
 // the waits below only give the subject the chance to misbehave, they never decide a verdict.
 
 import (
-	"runtime"
 	"sort"
 	"time"
 
@@ -41,15 +40,7 @@ func (s *vhsSess) gatedRecord(kind string, nprobe int, replied bool) map[string]
 	for _, id := range ids {
 		s.stopConn(id, nil)
 	}
-	gd := 0
-	for i := 0; i < 200; i++ {
-		gd = runtime.NumGoroutine() - s.g0
-		if gd <= 0 {
-			gd = 0
-			break
-		}
-		time.Sleep(2 * time.Millisecond)
-	}
+	gd := vhsSettle(s.g0)
 	s.fs.mu.Lock()
 	log := append([][]int{}, s.fs.log...)
 	nh := s.fs.nextH
